@@ -231,7 +231,9 @@ int16_t COTmrDelete(CO_TMR *tmr, int16_t actId)
         tx = tmr->Elapsed;
         while ((tx != 0) && (del == 0)) {
             act = tx->Action;
-            if (act->Id == (uint16_t)actId) {
+            if (act == 0) {
+                /* all actions of this elapsed event are deleted already */
+            } else if (act->Id == (uint16_t)actId) {
                 del        = act;
                 tx->Action = act->Next;
             } else {
@@ -422,6 +424,9 @@ static CO_TMR_TIME *COTmrInsert(CO_TMR *tmr, uint32_t dTnew, CO_TMR_ACTION *acti
     if (tx == 0) {
         /* fetch a timer */
         tn            = tmr->Free;
+        if (tn == 0) {
+            return (tn);
+        }
         tmr->Free     = tn->Next;
         /* setup first timer */
         tn->Delta     = dTnew;
@@ -446,6 +451,9 @@ static CO_TMR_TIME *COTmrInsert(CO_TMR *tmr, uint32_t dTnew, CO_TMR_ACTION *acti
             if (tx->Next == 0) {
                 /* fetch a timer */
                 tn            = tmr->Free;
+                if (tn == 0) {
+                    return (tn);
+                }
                 tmr->Free     = tn->Next;
                 /* setup new timer at the end of list */
                 tn->Delta     = dTnew - dTx;
@@ -463,6 +471,9 @@ static CO_TMR_TIME *COTmrInsert(CO_TMR *tmr, uint32_t dTnew, CO_TMR_ACTION *acti
                 if (dTnew < dTx) {
                     /* fetch a timer */
                     tn              = tmr->Free;
+                    if (tn == 0) {
+                        return (tn);
+                    }
                     tmr->Free       = tn->Next;
                     /* setup timer in front of next timer */
                     tn->Next        = tx->Next;
@@ -494,6 +505,9 @@ static CO_TMR_TIME *COTmrInsert(CO_TMR *tmr, uint32_t dTnew, CO_TMR_ACTION *acti
             } else if (dTnew < dTx) {
                 /* fetch a timer */
                 tn            = tmr->Free;
+                if (tn == 0) {
+                    return (tn);
+                }
                 tmr->Free     = tn->Next;
                 /* setup timer in front of first timer */
                 tn->Delta     = dTnew;
@@ -538,7 +552,7 @@ static void COTmrRemove(CO_TMR *tmr, CO_TMR_TIME *tx)
 
             /* loop through used timers in list until timer is removed */
             tn = tmr->Use;
-            do {
+            while ((tn != 0) && (tx != 0)) {
                 /* remove next timer in list */
                 if (tn->Next == tx) {
                     tn->Next = tx->Next;
@@ -553,7 +567,7 @@ static void COTmrRemove(CO_TMR *tmr, CO_TMR_TIME *tx)
                     tx         = 0;
                 }
                 tn = tn->Next;
-            } while((tn != 0) && (tx != 0));
+            }
         }
     }
 }
